@@ -101,8 +101,11 @@ def gen_dataset(r, depth=0):
             ds.PixelData = np.arange(4, dtype=np.uint16).tobytes()
             ds['PixelData'].VR = 'OW'
         if r.random() < 0.3:
-            ds.add_new((0x6000, 0x3000), 'OW', b'\x01\x02')
-            ds.add_new((0x6000, 0x0010), 'US', 2)
+            # overlay planes live in the repeating groups 6000, 6002, … 601E (the rule covers every 60xx group); bytes that
+            # survive the default OW conversion (printable ASCII) as well as binary ones
+            for g in r.sample(range(0x6000, 0x6020, 2), r.choice([1, 1, 2, 3])) + ([r.choice([0x6040, 0x60FE])] if r.random() < 0.2 else []):
+                ds.add_new((g, 0x3000), 'OW', r.choice([b'\x01\x02', b'UUUU', b'ab', b'\x00\xff\x10\x80']))
+                ds.add_new((g, 0x0010), 'US', 2)
         if r.random() < 0.2:
             ds.add_new((0x0028, 0x1201), 'OW', b'\x00\x01')
         if r.random() < 0.08:
@@ -259,8 +262,8 @@ def main(pid, tier):
                 fails.append(('pixeldata', 'pixel data extracted'))
             if 'ignore_pixel_data' in rules and any(k in res for k in ('FloatPixelData', 'DoubleFloatPixelData')):
                 fails.append(('floatpixeldata', 'float pixel data extracted'))
-            if 'ignore_overlay_data' in rules and 'OverlayData' in res:
-                fails.append(('overlay', 'overlay data extracted'))
+            if 'ignore_overlay_data' in rules and any(k.split('_0X')[0] == 'OverlayData' for k in res):
+                fails.append(('overlay', 'overlay data extracted: %s' % [k for k in res if k.split('_0X')[0] == 'OverlayData']))
             if 'ignore_color_lut_data' in rules and any('ColorLookupTableData' in k for k in res):
                 fails.append(('lut', 'colour table data extracted'))
             # conversions
